@@ -100,7 +100,10 @@ def to_rust(ts):
                     parts.append(CLOSE[d])
                 prev_joint = False
             elif "i" in t:
-                parts.append(t["i"])
+                if prev_joint and parts and parts[-1].endswith("'"):
+                    parts[-1] = parts[-1] + t["i"]
+                else:
+                    parts.append(t["i"])
                 prev_joint = False
             elif "l" in t:
                 parts.append(t["l"])
